@@ -63,6 +63,7 @@ FAMILIES['C05'] = [
     fam('release-reacquire', ['ACQ HOLD REL ACQ HOLD REL', 'ACQ HOLD REL', 'HOLD ACQ REL'], w=3),
     fam('release-reacquire', ['ACQ HOLD REL ACQ HOLD REL', 'ACQ HOLD REL', 'HOLD ACQ REL'], witness=True),
     fam('preempt-prio', ['ACQ HOLD REL', 'HOLD PREEMPT HOLD REL', 'TADD ACQ REL'], PRIOSYM=1, w=5),
+    fam('preempt-at-victims-wakeup', ['ACQ HOLD HOLD', 'HOLD PREEMPT HOLD REL', 'HOLD ACQ REL'], PRIOS='{0,5,0}', w=3),      # the preemptor runs first in the instant the victim's hold ends
     fam('preempt-chain', ['PREEMPT HOLD REL', 'HOLD PREEMPT HOLD REL', 'HOLD PREEMPT REL'], PRIOSYM=1, w=6),
     fam('holder-stopped', ['ACQ HOLD', 'ACQ HOLD REL', 'HOLD STOP0'], w=3),
     fam('holder-exits', ['ACQ HOLD EXIT', 'TADD ACQ HOLD', 'ACQ REL'], w=3),
@@ -228,6 +229,7 @@ FAMILIES['C14'] = [
     fam('rec-pool-rollback', ['PACQ HOLD PRELALL', 'PACQ HOLD', 'HOLD INTR1'], REC=1, POOLCAP=3, w=5),
     fam('rec-pool-rollback-topup', ['PACQ PACQ HOLD', 'PACQ HOLD', 'HOLD INTR0 HOLD'], REC=1, POOLCAP=3, w=10),
     fam('rec-drop-on-stop', ['ACQ PACQ HOLD', 'HOLD STOP0', 'HOLD ACQ PACQ HOLD'], REC=1, CONCRETE_D=1, w=4),
+    fam('rec-interim-reports', ['ACQ PACQ HOLD HOLD REL PRELALL HOLD', 'HOLD INTERIM HOLD INTERIM HOLD INTERIM'], REC=1, CONCRETE_D=1, w=6),   # finalize in mid-run, twice without a change in between
     fam('rec-buffer-partial', ['BPUT HOLD BPUT', 'TADD BGET BGET'], REC=1, BUFCAP=2, CONCRETE_D=1, BAMT_FULL=2, w=8),
     fam('rec-same-instant', ['ACQ REL ACQ REL PACQ PRELALL', 'HOLDZ OPUT OGET QPUT QGET'], REC=1, CONCRETE_D=1, w=2),
     fam('rec-everything', ['ACQ PACQ HOLD REL PREL HOLD', 'HOLD PPRE ACQ HOLD', 'OPUT QPUT BPUT HOLD OGET QGET BGET', 'HOLD STOP0'], tier='thorough', REC=1, CONCRETE_D=1, PRIOS='{0,1,0,0}', w=60),
